@@ -240,6 +240,10 @@ pub fn f32_from_le(b: [u8; 4]) -> (r: f32) ensures r == f32_of_bits(dle32(b@, 0)
 pub fn f32_from_be(b: [u8; 4]) -> (r: f32) ensures r == f32_of_bits(dbe32(b@, 0) as u32) { f32::from_be_bytes(b) }
 
 pub const CHROM_TREE_MAGIC: u32 = 0x78CA_8C91;
+// the writer's defaults: not used by the pinned write_chrom_tree (its block size is max(256, count)); in scope so that
+// an edit that starts using them is judged by the layout obligations instead of being refused (unknown name)
+pub const DEFAULT_BLOCK_SIZE: u32 = 256;
+pub const DEFAULT_ITEMS_PER_SLOT: u32 = 1024;
 
 /// one chromosome as the replaced prologue hands it to the writing code: (name bytes, id, length)
 pub type Chrom = (Vec<u8>, u32, u32);
